@@ -4,6 +4,7 @@
 // comparison of everything observed with the reference model.
 #pragma once
 
+#include <cctype>
 #include <tao/pegtl.hpp>
 
 #include <cstring>
@@ -193,7 +194,26 @@ namespace vf
 
    inline std::uint64_t tag_of_name( const std::string& tname )
    {
-      return fnv( tname ) & 0x3fffffff;
+      // the namespace of a generated grammar ("g17::") is not part of the identity of a rule: a replay TU emits the same
+      // grammar as g0, and the scripted actions must take the same decisions there
+      std::string n;
+      n.reserve( tname.size() );
+      for( std::size_t i = 0; i < tname.size(); ) {
+         const char prev = i ? tname[ i - 1 ] : ' ';
+         if( tname[ i ] == 'g' && !std::isalnum( static_cast< unsigned char >( prev ) ) && prev != '_' && prev != ':' ) {
+            std::size_t j = i + 1;
+            while( j < tname.size() && std::isdigit( static_cast< unsigned char >( tname[ j ] ) ) ) {
+               ++j;
+            }
+            if( j > i + 1 && j + 1 < tname.size() && tname[ j ] == ':' && tname[ j + 1 ] == ':' ) {
+               n += "g::";
+               i = j + 2;
+               continue;
+            }
+         }
+         n += tname[ i++ ];
+      }
+      return fnv( n ) & 0x3fffffff;
    }
 
    struct monitor
